@@ -60,6 +60,10 @@ def run(tier):
     srcs = [("%s%d" % (k, i), prog(k, b)) for i, (k, b) in enumerate(bodies)]
     # ... and as the body of a `pub extern fn` (flags do not change what is allowed where, nor the lints)
     srcs += [("%s%dX" % (k, i), prog(k, b).replace("fn main() -> i32", "pub extern fn entry() -> i32")) for i, (k, b) in enumerate(bodies) if k != "o" and i % 4 == 0]
+    # ... and next to a constant or a structure that fails (the two halves of a module are resolved apart and merged):
+    # only the placement codes are compared ("o" ids)
+    FAULTY = ["const LIMIT: i32 = true;\n", "struct Bad\n{\n\tm: Nowhere,\n}\n", "const A: i32 = B;\nconst B: i32 = A;\n"]
+    srcs += [("o%dF" % i, FAULTY[i % 3] + prog(k, b)) for i, (k, b) in enumerate(bodies) if k != "o" and i % 7 == 0]
     impl = C.run_harness("front", srcs, ck.work)
     items = [("syntax", cid, impl[cid][1]) for cid, _ in srcs if cid in impl and len(impl[cid]) >= 2 and impl[cid][1].startswith("(")]
     model = C.run_model(items, ck.work)
